@@ -32,7 +32,11 @@ func commandKind(v ssa.Value, st *an.State) string {
 		// element of t.Before / t.After / t.Commands
 		if u, ok := src.(*ssa.UnOp); ok && u.Op == token.MUL {
 			if ia, ok := u.X.(*ssa.IndexAddr); ok {
-				switch an.AccessPath(ia.X).LastField() {
+				base := ia.X
+				if st != nil {
+					base = st.Root(base)
+				}
+				switch an.AccessPath(base).LastField() {
 				case "Before":
 					return "before"
 				case "After":
